@@ -1,8 +1,376 @@
-//! C30 — not built yet.
+//! C30 — jq programs never crash the process (DESIGN §4 C30).
+//!
+//! Subject: `jq::parse`, `jq::parse_program`, `parse_with_mode(Yq)`, `parse_program_with_mode(Yq)`
+//! on every program text; if `jq::parse` accepts it, the library evaluator (`jq::eval`) and the
+//! generic evaluator (`eval_generic::eval_with_cursor`, the CLI's) on a generated input. Allowed
+//! outcomes: outputs, a jq error, break/halt, a parse error. A panic (caught in the worker, with
+//! location), a stack overflow, an abort, or an allocation request >= 2^40 bytes is a violation.
+//! A case that makes no progress for the watchdog period is killed and discarded (the statement
+//! excludes non-terminating programs); an allocation failure < 2^40 bytes under the 6 GiB
+//! address-space limit is discarded as inconclusive. A fraction of cases is also run through
+//! `succinctly jq -c -f <file> <input>` (exit status 101 / death by signal = crash).
+use crate::cli;
 use crate::engine::*;
+use crate::gen::jqprog::{self, Cfg, Profile, Prog};
+use crate::gen::json::{self as gjson, GenOpts, KeyPalette, StrPalette, J};
+use crate::isolate::IsoOpts;
+use crate::props::c23::{run_full, run_generic, Outcome};
+use serde_json::{json, Value};
+use succinctly::jq::{self, ParserMode};
 
-pub const RULE: &str = "not built";
+pub const RULE: &str = "G-jqprog *hostile*: typed programs with extreme operands (infinite, nan, 1e19, -0, 9007199254740993, 1e1000, i64 edges, repeat counts <= 1e5 or >= 1e15), ~900 hostile snippets (string repetition, implode, splits/sub with empty regex, tojson of deep values, getpath/setpath/slice assignment with huge indices, dates with extreme inputs, @base64d/fromjson/tonumber of garbage, limit/first/nth edge counts, label/break, def recursion, reduce/foreach edge cases) composed with generated pieces, one construct nested up to 5 000 levels (51 nesting forms), token soups over a 300-token alphabet, 1-3 edit mutants of the 487 jq-golden filters, generated programs with non-ASCII/control characters spliced into the text; x small G-json inputs (sometimes 100-400 levels deep). Non-trivial: program that parses and contains an extreme operand or >= 50 levels of nesting; distinct by hash(program text, input).";
+
+const GOLDEN_DIR: &str = "/repo/tests/data/jq-golden/cases";
+
+pub fn load_seeds() -> Vec<String> {
+    let mut v = vec![];
+    if let Ok(rd) = std::fs::read_dir(GOLDEN_DIR) {
+        let mut dirs: Vec<_> = rd.filter_map(|e| e.ok()).map(|e| e.path()).collect();
+        dirs.sort();
+        for d in dirs {
+            if let Ok(f) = std::fs::read_to_string(d.join("filter")) {
+                let f = f.trim().to_string();
+                if !f.is_empty() && f.len() < 400 {
+                    v.push(f);
+                }
+            }
+        }
+    }
+    v
+}
+
+fn norm_msg(m: &str) -> String {
+    let mut out = String::new();
+    let mut in_num = false;
+    for c in m.chars().take(90) {
+        if c.is_ascii_digit() {
+            if !in_num {
+                out.push('N');
+            }
+            in_num = true;
+        } else {
+            in_num = false;
+            out.push(if c.is_ascii_alphanumeric() || " :_-.()".contains(c) { c } else { '?' });
+        }
+    }
+    out.trim().replace(' ', "-")
+}
+
+fn is_nesting_guard(msg: &str) -> bool {
+    msg.starts_with("nesting depth exceeds limit of")
+}
+
+/// Could this (program, input) really reach nesting >= 256? (sound over-approximation: only then is
+/// the documented `nesting depth exceeds limit of N` guard panic tolerated)
+fn deep_capable(text: &str, input_depth: usize, nest: usize) -> bool {
+    if input_depth >= 200 || nest >= 100 {
+        return true;
+    }
+    const LOOPS: &[&str] = &["reduce", "foreach", "recurse", "repeat", "while", "until", "range", "limit", "def ", "..", "setpath", "fromjson", "walk", "paths", "getpath", "tostream", "fromstream", "*", "tojson", "flatten", "combinations", "transpose", "input"];
+    LOOPS.iter().any(|k| text.contains(k))
+}
+
+/// identifiers of a program text (for signatures of raw-text families)
+fn idents(text: &str) -> Vec<String> {
+    let mut v: Vec<String> = vec![];
+    let mut cur = String::new();
+    for c in text.chars().chain(std::iter::once(' ')) {
+        if c.is_ascii_alphanumeric() || c == '_' || c == '@' || c == '$' {
+            cur.push(c);
+        } else {
+            if cur.chars().next().map_or(false, |c| c.is_ascii_alphabetic() || c == '@' || c == '$' || c == '_') && !v.contains(&cur) {
+                v.push(cur.clone());
+            }
+            cur.clear();
+        }
+    }
+    v
+}
+
+fn lex(text: &str) -> Vec<String> {
+    let mut toks = vec![];
+    let cs: Vec<char> = text.chars().collect();
+    let mut i = 0;
+    while i < cs.len() {
+        let c = cs[i];
+        let mut j = i + 1;
+        if c.is_ascii_alphanumeric() || c == '_' || c == '$' || c == '@' {
+            while j < cs.len() && (cs[j].is_ascii_alphanumeric() || cs[j] == '_' || cs[j] == '.' && c.is_ascii_digit()) {
+                j += 1;
+            }
+        } else if c == '"' {
+            while j < cs.len() && cs[j] != '"' {
+                if cs[j] == '\\' {
+                    j += 1;
+                }
+                j += 1;
+            }
+            j = (j + 1).min(cs.len());
+        } else if c == ' ' {
+            while j < cs.len() && cs[j] == ' ' {
+                j += 1;
+            }
+        }
+        toks.push(cs[i..j.min(cs.len())].iter().collect());
+        i = j.min(cs.len()).max(i + 1);
+    }
+    toks
+}
+
+/// ddmin over tokens: smallest token subsequence for which `pred` still holds (bounded work).
+fn minimize_text(text: &str, pred: &dyn Fn(&str) -> bool) -> String {
+    let mut toks = lex(text);
+    if toks.len() > 400 {
+        return text.to_string();
+    }
+    let mut evals = 0;
+    let mut chunk = (toks.len() / 2).max(1);
+    while chunk >= 1 {
+        let mut i = 0;
+        let mut progressed = false;
+        while i < toks.len() {
+            if evals > 600 {
+                return toks.concat();
+            }
+            let end = (i + chunk).min(toks.len());
+            let mut cand = toks.clone();
+            cand.drain(i..end);
+            evals += 1;
+            if !cand.is_empty() && pred(&cand.concat()) {
+                toks = cand;
+                progressed = true;
+            } else {
+                i += chunk;
+            }
+        }
+        if chunk == 1 && !progressed {
+            break;
+        }
+        chunk = if chunk > 1 { chunk / 2 } else { 1 };
+        if chunk == 1 && !progressed && toks.len() <= 1 {
+            break;
+        }
+    }
+    toks.concat()
+}
+
+#[derive(Clone, Debug, PartialEq)]
+struct Crash {
+    stage: &'static str,
+    loc: String,
+    msg: String,
+}
+
+/// Everything C30 does in-process with one (program text, input): None = no crash.
+fn crash_of(text: &str, input: &[u8]) -> (Option<Crash>, Option<(Outcome, Outcome)>, bool) {
+    let stages: [(&'static str, Box<dyn Fn() -> bool>); 4] = [
+        ("parse", Box::new(|| jq::parse(text).is_ok())),
+        ("parse_program", Box::new(|| jq::parse_program(text).is_ok())),
+        ("parse-yq", Box::new(|| jq::parse_with_mode(text, ParserMode::Yq).is_ok())),
+        ("parse_program-yq", Box::new(|| jq::parse_program_with_mode(text, ParserMode::Yq).is_ok())),
+    ];
+    for (name, f) in stages.iter() {
+        if let Err((loc, msg)) = catch(|| f()) {
+            return (Some(Crash { stage: name, loc, msg }), None, false);
+        }
+    }
+    let expr = match catch(|| jq::parse(text)) {
+        Ok(Ok(e)) => e,
+        _ => return (None, None, false),
+    };
+    let f = match run_full(&expr, input) {
+        Ok(o) => o,
+        Err((loc, msg)) => return (Some(Crash { stage: "eval-full", loc, msg }), None, true),
+    };
+    let g = match run_generic(&expr, input) {
+        Ok(o) => o,
+        Err((loc, msg)) => return (Some(Crash { stage: "eval-generic", loc, msg }), None, true),
+    };
+    (None, Some((f, g)), true)
+}
+
+fn crash_sig(c: &Crash, culprit: &str) -> String {
+    format!("C30/{}/panic@{}/{}/{}", c.stage, panic_sig(&c.loc), norm_msg(&c.msg), culprit)
+}
+
+fn same_crash(a: &Crash, b: &Crash) -> bool {
+    a.stage == b.stage && panic_sig(&a.loc) == panic_sig(&b.loc) && norm_msg(&a.msg) == norm_msg(&b.msg)
+}
+
+pub fn gen_input(u: &mut Src) -> J {
+    let o = GenOpts {
+        max_depth: u.range(0, 4),
+        max_nodes: u.range(1, 30),
+        dup_keys: u.ratio(1, 4),
+        strings: *u.pick(&[StrPalette::AsciiPlain, StrPalette::Ascii, StrPalette::Full]),
+        keys: *u.pick(&[KeyPalette::Ident, KeyPalette::Ident, KeyPalette::AsStrings, KeyPalette::Hostile]),
+        numbers: *u.pick(&[0u8, 1, 2, 2]),
+        max_str_len: 12,
+    };
+    let v = gjson::gen_value(u, &o);
+    if u.ratio(1, 40) {
+        let d = *u.pick(&[100usize, 200, 255, 256, 257, 300, 383, 384, 385, 400]);
+        return gjson::wrap_deep(u, v, d);
+    }
+    v
+}
+
+fn check_prog(prog: &Prog, doc: &J, st: &mut Stats, cli_sample: bool) -> Result<(), Fail> {
+    let input = gjson::to_compact(doc);
+    let text = &prog.text;
+    let depth = doc.depth();
+    st.describe(|| json!({"filter": text, "input": if input.len() < 4000 { input.clone() } else { format!("<{} bytes, depth {}>", input.len(), depth) }, "family": prog.family}));
+    st.size(text.len());
+    st.class(&format!("family:{}", prog.family));
+    st.evals(1);
+    let (crash, outs, parsed) = crash_of(text, input.as_bytes());
+    st.class(if parsed { "parses" } else { "parse-error" });
+    if parsed {
+        st.evals(2);
+        st.class_if(prog.extreme, "extreme-operand");
+        st.class_if(prog.nest >= 50, "nesting>=50");
+        if prog.extreme || prog.nest >= 50 {
+            st.class("nontrivial");
+            st.nontrivial(hash_str(text) ^ hash_str(&input).rotate_left(17));
+        }
+    }
+    if let Some((f, g)) = &outs {
+        st.class(&format!("end:{}", f.end.kind()));
+        st.class_if(!f.outs.is_empty(), "has-outputs");
+        st.digest(hash_str(&format!("{:?}{:?}", f.end.kind(), g.end.kind())));
+        st.sample(prog.family, || json!({"filter": text.chars().take(300).collect::<String>(), "input": input.chars().take(200).collect::<String>(), "full": f.to_value()}));
+    }
+    if let Some(c) = crash {
+        if is_nesting_guard(&c.msg) && deep_capable(text, depth, prog.nest) {
+            st.class("documented-nesting-guard-panic");
+            st.sample("nesting-guard", || json!({"filter": text.chars().take(300).collect::<String>(), "stage": c.stage, "loc": c.loc, "msg": c.msg}));
+        } else {
+            // minimise the program text while the same crash persists; culprit = its identifiers
+            let pred = |t: &str| -> bool { matches!(crash_of(t, input.as_bytes()).0, Some(ref c2) if same_crash(&c, c2)) };
+            let min = minimize_text(text, &pred);
+            let mut ids = idents(&min);
+            ids.truncate(3);
+            let culprit = if ids.is_empty() { "-".to_string() } else { ids.join("+") };
+            return Err(Fail::new(
+                crash_sig(&c, &culprit),
+                json!({"filter": min, "original_filter": text.chars().take(2000).collect::<String>(), "input": input.chars().take(4000).collect::<String>(), "stage": c.stage, "panic_location": c.loc, "panic_message": c.msg}),
+            ));
+        }
+    }
+    if cli_sample && cli::cli_available() && text.len() < 100_000 {
+        st.class("cli-sampled");
+        st.evals(1);
+        let fp = cli::write_tmp("c30-filter", text.as_bytes());
+        let ip = cli::write_tmp("c30-input", input.as_bytes());
+        let out = cli::run_with(&cli::cli_path(), &["jq", "-c", "-f", fp.to_str().unwrap_or(""), ip.to_str().unwrap_or("")], None, std::time::Duration::from_secs(10), &[]);
+        let _ = std::fs::remove_file(&fp);
+        let _ = std::fs::remove_file(&ip);
+        if out.timed_out {
+            st.class("cli-timeout-discarded");
+            st.discard();
+        } else if out.crashed() {
+            let err = out.stderr_str();
+            let nesting = err.contains("nesting depth exceeds limit of");
+            if nesting && deep_capable(text, depth, prog.nest) {
+                st.class("documented-nesting-guard-panic");
+            } else {
+                let loc = err.split("panicked at ").nth(1).and_then(|r| r.split(|c| c == ',' || c == '\n').next()).unwrap_or("?").to_string();
+                let msg = err.lines().skip_while(|l| !l.contains("panicked at")).nth(1).unwrap_or("").to_string();
+                let how = match (out.code, out.signal) {
+                    (_, Some(s)) => format!("signal-{}", s),
+                    (Some(c), _) => format!("exit-{}", c),
+                    _ => "?".into(),
+                };
+                let how = if err.contains("overflowed its stack") { "stack-overflow".to_string() } else { how };
+                let mut ids = idents(text);
+                ids.truncate(3);
+                return Err(Fail::new(
+                    format!("C30/cli/{}/{}/{}/{}", how, panic_sig(&loc), norm_msg(&msg), if text.len() < 200 { ids.join("+") } else { "-".into() }),
+                    json!({"filter": text.chars().take(2000).collect::<String>(), "input": input.chars().take(4000).collect::<String>(), "exit": out.code, "signal": out.signal, "stderr_tail": err.chars().rev().take(500).collect::<String>().chars().rev().collect::<String>()}),
+                ));
+            }
+        }
+    }
+    Ok(())
+}
+
+fn replay_input(v: &Value) -> Option<Fail> {
+    let filter = v["input"]["filter"].as_str().unwrap_or(".").to_string();
+    let input = v["input"]["input"].as_str().unwrap_or("null");
+    let doc = crate::oracle::jsonval::parse_one(input.as_bytes()).unwrap_or(J::Null);
+    let mut prog = jqprog::prog_of(jqprog::E::raw(filter.clone()), true, "replay");
+    prog.text = filter;
+    let mut st = Stats::default();
+    let cli_too = v["input"]["cli"].as_bool().unwrap_or(false);
+    check_prog(&prog, &doc, &mut st, cli_too).err()
+}
 
 pub fn run(cx: &mut Ctx) {
-    cx.infra("check not built");
+    cx.assume("workers run each case on the process main thread (8 MiB stack, like the CLI) under RLIMIT_AS = 6 GiB; the harness build has overflow-checks and debug-assertions on, the sampled CLI is the release build");
+    cx.assume("a panic whose message is the documented guard `nesting depth exceeds limit of N` (MAX_NESTING_DEPTH 256 / MAX_VALUE_TREE_DEPTH 384, doc comments in src/jq/eval_generic.rs and src/jq/value.rs) is tolerated only when the input is >= 200 levels deep or the program can build deep values (loops, recursion, >= 100 levels of literal nesting); watchdog expiry and allocation failures < 2^40 bytes are discarded");
+    let seeds = load_seeds();
+    if seeds.len() < 400 {
+        cx.infra(format!("golden filters not found under {} ({} read)", GOLDEN_DIR, seeds.len()));
+        return;
+    }
+    for (name, v) in cx.replays.clone() {
+        if v["kind"] == "input" {
+            let r = replay_input(&v);
+            cx.replay_outcome(&name, r);
+        }
+    }
+    let mut cfg = Cfg::new(Profile::Hostile);
+    cfg.max_depth = 4;
+    let thorough = cx.tier == Tier::Thorough;
+    let iso = |chunk: u64| IsoOpts { watchdog_s: if thorough { 20 } else { 8 }, rlimit_as_gib: 6, chunk, hang_is_inconclusive: false };
+    let cfg = &cfg;
+    let seeds = &seeds;
+
+    cx.check_isolated("gen", RULE, Budget { quick: 16_000, thorough: 2_000_000, max_len: 1400 }, iso(500), |u, st| {
+        let doc = gen_input(u);
+        let p = if u.ratio(1, 4) { jqprog::text_hostile(u, &doc, cfg) } else { jqprog::gen_program(u, &doc, cfg) };
+        let cli_s = u.ratio(1, 16);
+        check_prog(&p, &doc, st, cli_s)
+    });
+    cx.check_isolated("extreme", RULE, Budget { quick: 10_000, thorough: 1_000_000, max_len: 1400 }, iso(250), |u, st| {
+        let doc = gen_input(u);
+        let p = jqprog::snippet_program(u, &doc, cfg);
+        let cli_s = u.ratio(1, 16);
+        check_prog(&p, &doc, st, cli_s)
+    });
+    cx.check_isolated("deep", RULE, Budget { quick: 3_000, thorough: 200_000, max_len: 600 }, iso(100), |u, st| {
+        let doc = gen_input(u);
+        let p = jqprog::deep_program(u);
+        let cli_s = u.ratio(1, 10);
+        check_prog(&p, &doc, st, cli_s)
+    });
+    cx.check_isolated("soup", RULE, Budget { quick: 12_000, thorough: 1_000_000, max_len: 600 }, iso(500), |u, st| {
+        let doc = gen_input(u);
+        let p = jqprog::soup_program(u);
+        let cli_s = u.ratio(1, 20);
+        check_prog(&p, &doc, st, cli_s)
+    });
+    cx.check_isolated("mutant", RULE, Budget { quick: 10_000, thorough: 1_000_000, max_len: 600 }, iso(500), |u, st| {
+        let doc = gen_input(u);
+        let p = jqprog::mutant_program(u, seeds);
+        let cli_s = u.ratio(1, 20);
+        check_prog(&p, &doc, st, cli_s)
+    });
+    cli::cleanup();
+    sweep_dead_tmp(&cx.root);
+    for (sub, cl, min) in [("gen", "nontrivial", 200), ("gen", "parses", 1000), ("extreme", "nontrivial", 500), ("extreme", "end:error", 100), ("deep", "nesting>=50", 50), ("deep", "parse-error", 50), ("soup", "parse-error", 500), ("mutant", "parses", 300), ("mutant", "parse-error", 300)] {
+        cx.require_class(sub, cl, min);
+    }
+}
+
+/// Worker processes leave their (empty) CLI scratch directories behind: remove those of dead pids.
+fn sweep_dead_tmp(root: &str) {
+    if let Ok(rd) = std::fs::read_dir(format!("{}/out/tmp", root)) {
+        for e in rd.filter_map(|e| e.ok()) {
+            let name = e.file_name().to_string_lossy().to_string();
+            if name.chars().all(|c| c.is_ascii_digit()) && !std::path::Path::new(&format!("/proc/{}", name)).exists() {
+                let _ = std::fs::remove_dir_all(e.path());
+            }
+        }
+    }
 }
